@@ -52,6 +52,21 @@ CHECKS = {
          "66 initial states (11 values x constructor / setattr / in-place / parse / parse-with-unknown-fields / from_dict) x 26 observers and copy, deepcopy, pickle, closed under composition: on every edge the observable projection (bytes, values, presence, oneof, element types) must equal that of a separate replay without the operation; copies must be equal, byte-identical and (deep copies) independent under 10 mutators.",
          "state key = full __dict__; one message class covering nested, optional, oneof, map-of-message, repeated, Timestamp, wrapper and enum fields",
          "DESIGN.md §4 C14"),
+ "C15": ("model_checking",
+         "complete enumeration of a structured finite domain of timedeltas and aware datetimes (boundary seconds x boundary microseconds x sign x UTC offsets, plus every microsecond of dense windows), each compared with google.protobuf and an integer model",
+         "Every value is stored in optional and plain Timestamp/Duration fields, encoded, decoded by the reference ((seconds, nanos) must equal FromTimedelta/FromDatetime and be normalised), decoded back (identical value / same instant), mapped to JSON (must match the spec's lexical form and be read by the reference parser as the same value) and back from the reference's JSON.",
+         "values outside the enumerated domain (about 3e17 microsecond values) are argued structurally: integer arithmetic without further branch points",
+         "DESIGN.md §4 C15"),
+ "C19": ("model_checking",
+         "exhaustive enumeration of all legal proto identifiers up to length 6 (7) over {a,b,A,B,0,1,_} plus keywords, builtins and a corpus, each pushed through the naming functions and a real one-field message class",
+         "For every identifier the four pythonize_* functions must return valid non-keyword identifiers and be idempotent, and a real message class with the field named as the plugin would name it must map its camelCase key, its snake_case key and the original proto name back to the field through both forms of from_dict with the value intact.",
+         "alphabet of 7 characters; protoc's json_name is recorded, not required (not in the property's key list)",
+         "DESIGN.md §4 C19"),
+ "C20": ("model_checking",
+         "exhaustive enumeration of all enum definitions with 1..3 members over 6 numbers (aliases included) and of all (field position, number) pairs, against a dict model",
+         "All 258 definitions are created with the real metaclass: lookup by number/name/attribute returns the one canonical member with the declared name and number; copy/deepcopy identity; pickle; openness (try_value) and closedness (call) for undefined numbers; every mutation attempt on class and members raises. Every defined/undefined number in singular, optional, oneof, repeated and map-value position survives binary and JSON round trips in both casings.",
+         "definitions limited to 3 members over 6 numbers; plugin-generated enums are covered by C03",
+         "DESIGN.md §4 C20"),
 }
 
 NOT_APPLICABLE_REASON = "check not built yet in this session; see DESIGN.md for the planned bounded-exhaustive exploration"
